@@ -104,7 +104,11 @@ def job_refactor(prop: str, root: Path, ref: Path) -> dict:
             return {"kind": "refactor", "name": ref.name, "rc": None, "skipped": "patch does not apply to the analysed tree"}
         rc, sig, out = run_check(prop, d)
         rep = [l.strip()[:160] for l in out.splitlines() if l.startswith("  R") or l.startswith("ANALYSIS-ERROR")][:3]
-        return {"kind": "refactor", "name": ref.name, "rc": rc, "known": sig.get("known"), "reports": rep}
+        meta = json.loads((ref / "meta.json").read_text()) if (ref / "meta.json").exists() else {}
+        # refactorings on which this property's check is recorded as still differing (a limit stated in DESIGN.md) are run and
+        # reported, but only a refactoring recorded as silent can turn the slice into an error (a regression)
+        return {"kind": "refactor", "name": ref.name, "rc": rc, "known": sig.get("known"), "reports": rep,
+                "expected_silent": prop not in meta.get("differs_for", [])}
     finally:
         shutil.rmtree(d, ignore_errors=True)
 
@@ -139,7 +143,8 @@ def run(prop: str, root: Path, base_rc: int) -> tuple[bool, dict]:
                 problems.append(f"{r['kind']} {r['name']}: rc={r['rc']} (expected {base_rc2}), differing: {json.dumps(diff, default=str)[:300]}")
         elif r["kind"] == "seed" and r.get("rc") is not None and r["rc"] != 1 and r.get("expected_to_fire", True):
             problems.append(f"seeded change {r['name']} is not reported (rc={r['rc']})")
-        elif r["kind"] == "refactor" and r.get("rc") is not None and (r["rc"] != base_rc2 or r.get("known") != base.get("known")):
+        elif r["kind"] == "refactor" and r.get("rc") is not None and r.get("expected_silent", True) and (
+                r["rc"] != base_rc2 or r.get("known") != base.get("known")):
             problems.append(f"behaviour-preserving refactoring {r['name']} changes the verdict (rc={r['rc']}): {r.get('reports')}")
     rep = {
         "base": base, "runs": len(results) + 1,
@@ -147,7 +152,7 @@ def run(prop: str, root: Path, base_rc: int) -> tuple[bool, dict]:
         "silent_variants": [{"name": r["name"], "rc": r["rc"], "same_verdict": r["rc"] == base_rc2 and r["sig"] == base} for r in results if r["kind"] == "variant"],
         "seeded_changes": [{k: v for k, v in r.items() if k not in ("kind", "sig")} for r in results if r["kind"] == "seed"],
         "refactorings": [{"name": r["name"], "rc": r.get("rc"), "same_verdict": r.get("rc") == base_rc2 and r.get("known") == base.get("known"),
-                          **({"skipped": r["skipped"]} if r.get("skipped") else {})} for r in results if r["kind"] == "refactor"],
+                          "expected_silent": r.get("expected_silent", True), **({"skipped": r["skipped"]} if r.get("skipped") else {})} for r in results if r["kind"] == "refactor"],
         "problems": problems,
     }
     return not problems, rep
